@@ -1016,7 +1016,7 @@ class UserActions(object):
     if col_values.get('reverseCol', col.reverseCol):
       if not is_compatible_ref_type(new_type, col.type):
         raise ValueError("invalid change to type of a two-way reference column")
-      if col_values.get('formula'):
+      if col_values.get('formula', col.formula):
         raise ValueError("cannot set formula on a two-way reference column")
 
     source_table = col.parentId.summarySourceTable
